@@ -69,8 +69,17 @@ def check_shift_range(chk, rule, prog, eff, cache, floor=3):
     def dom_bits(d_):
         return d_ if isinstance(d_, int) else max(1, len(d_)).bit_length()
 
+    import ownership as _Os
+    in_context = set()
     for g in prog.lib_funcs():
-        if not any(i_.op in ("shl", "lshr", "ashr") and not isinstance(i_.operands[1], Const) for i_ in g.all_insts()):
+        in_context |= _Os.static_callees(prog, eff, g.name)
+
+    def has_rt_shift(fn_):
+        return any(i_.op in ("shl", "lshr", "ashr") and not isinstance(i_.operands[1], Const) for i_ in fn_.all_insts())
+    for g in prog.lib_funcs():
+        if g.name in in_context:
+            continue        # a unit-internal helper: judged where it is inlined, with the arguments its callers pass
+        if not (has_rt_shift(g) or any(has_rt_shift(prog.funcs[h_]) for h_ in _Os.static_callees(prog, eff, g.name) if h_ in prog.funcs)):
             continue
         for k, pa in enumerate(cache.get(g.name)):
             for e in pa.events:
